@@ -654,4 +654,7 @@ class LagMode(vlib.Mode):
 
 
 def modes(tier):
-    return codec_modes(tier) + [RelayMode("C14"), LagMode(), RelayMainMode("C14", 2)]
+    return codec_modes(tier) + [RelayMode("C14"), LagMode(), RelayMainMode("C14", 2), StatusLoadMode()]
+
+from lagcommon import StatusLoadMode, STATUSLOAD_RULE
+RULE = RULE + STATUSLOAD_RULE
